@@ -74,6 +74,7 @@ func TestC10(t *testing.T) {
 		"the datastore makes a Put/Delete durable before it returns (crash images are taken right after the mutation); torn writes inside one Put are not modelled",
 		"rules change only while no connection attempt is in flight (the statement is about 'currently blocked'; the gater documents that it does not close live connections)",
 		"crypto and socket layers are trusted; real-time waits are watchdogs only (expiry = inconclusive)",
+		"a gating call site that is never consulted is only counted (gate_not_consulted/...): with the real gater InterceptUpgraded and outbound InterceptSecured always allow, so the statement is broken only when a blocked remote is admitted or dialled, which is what is raised",
 		"IPv4-mapped IPv6 (::ffff:a.b.c.d) is the IPv4 host a.b.c.d; whether a real IPv6 prefix shorter than /96 that covers the mapped range (e.g. ::/0) matches IPv4 remotes is left open (verdict either)",
 	)
 
